@@ -313,7 +313,7 @@ impl Exec {
                 // drain one step at a time so that every tip change is observed
                 loop {
                     let mut p = false;
-                    if self.node.chain.step_preload() {
+                    if self.node.chain.verify_pending() < 100 && self.node.chain.step_preload() {
                         p = true;
                     }
                     if self.node.chain.step_verify() {
@@ -554,12 +554,113 @@ impl Exec {
         if let Err((class, d)) = compare_state(&self.w, &*snap, Some(&*snap)) {
             let c = format!("{class}:{why}");
             self.viol("C02", &c, d.clone());
+            self.viol("C07", &c, d.clone());
             self.viol("C08", &c, d);
         }
     }
 
+    /// C07: monitors over the epochs the node itself recorded for its main chain
+    fn check_epochs(&mut self) {
+        use ckb_types::core::EpochExt;
+        let shared = self.node.shared.clone();
+        let store = shared.store();
+        let tip = store.get_tip_header().unwrap();
+        let cfg = self.sc.cfg.clone();
+        let mut prev: Option<(EpochExt, ckb_types::core::HeaderView)> = None;
+        let mut epoch_sum_primary: u128 = 0;
+        let mut epoch_sum_secondary: u128 = 0;
+        let mut compacts: BTreeSet<u32> = BTreeSet::new();
+        for n in 0..=tip.number() {
+            let h = store.get_block_hash(n).unwrap();
+            let header = store.get_block_header(&h).unwrap();
+            let e = store.get_block_epoch_index(&h).and_then(|i| store.get_epoch_ext(&i)).unwrap();
+            compacts.insert(e.compact_target());
+            // gap-free epoch fields
+            let f = header.epoch();
+            if n > 0 {
+                if f.number() != e.number() || f.index() != n - e.start_number() || f.length() != e.length() {
+                    self.viol("C07", "epoch_field_mismatch", format!("block {n}: header epoch {f:#} vs recorded epoch {} start {} len {}", e.number(), e.start_number(), e.length()));
+                }
+                let (pe, ph) = prev.as_ref().unwrap();
+                let pf = ph.epoch();
+                let ok = (f.number() == pf.number() && f.index() == pf.index() + 1 && f.length() == pf.length())
+                    || (f.number() == pf.number() + 1 && f.index() == 0 && (pf.index() + 1 == pf.length() || ph.number() == 0 && pe.length() == 1));
+                if n > 1 && !ok {
+                    self.viol("C07", "epoch_sequence_gap", format!("block {n}: {pf:#} -> {f:#}"));
+                }
+                if e.number() != pe.number() {
+                    // a transition pe -> e
+                    self.res.probes.inc("epoch_transition");
+                    let (l0, l1) = (pe.length(), e.length());
+                    if l1 < crate::model::MIN_EPOCH_LENGTH || l1 > crate::model::MAX_EPOCH_LENGTH {
+                        self.viol("C07", "epoch_length_outside_consensus_bounds", format!("epoch {} length {l1}", e.number()));
+                    }
+                    if l0 >= crate::model::MIN_EPOCH_LENGTH && (l1 > l0 * 2 || l1 * 2 < l0) {
+                        self.viol("C07", "epoch_length_changed_by_more_than_tau", format!("{l0} -> {l1}"));
+                    }
+                    if l1 == l0 * 2 || l1 * 2 == l0 || l1 == crate::model::MIN_EPOCH_LENGTH || l1 == crate::model::MAX_EPOCH_LENGTH {
+                        self.res.probes.inc("epoch_length_at_a_bound");
+                    }
+                    let d = bigmath::compact_to_difficulty(e.compact_target());
+                    if d == BigUint::from(0u8) {
+                        self.viol("C07", "zero_difficulty", format!("epoch {} compact {:#x}", e.number(), e.compact_target()));
+                    }
+                    let (hr0, hr1) = (bigmath::from_u256(pe.previous_epoch_hash_rate()), bigmath::from_u256(e.previous_epoch_hash_rate()));
+                    if hr0 > BigUint::from(0u8) && (hr1 > &hr0 * 2u8 || &hr1 * 2u8 < &hr0 - BigUint::from(1u8)) {
+                        self.viol("C07", "hash_rate_estimate_outside_tau", format!("{hr0} -> {hr1}"));
+                    }
+                    if hr0 > BigUint::from(0u8) && (hr1 == &hr0 * 2u8 || hr1 == &hr0 / 2u8) {
+                        self.res.probes.inc("hash_rate_clamped");
+                    }
+                    // issuance of the finished epoch
+                    let halvings = pe.number() / cfg.halving_interval;
+                    let want_primary = (cfg.primary_epoch_reward >> halvings) as u128;
+                    if epoch_sum_primary != want_primary {
+                        self.viol("C07", "epoch_primary_issuance_sum", format!("epoch {}: blocks sum to {epoch_sum_primary}, schedule says {want_primary}", pe.number()));
+                    }
+                    if epoch_sum_secondary != cfg.secondary_epoch_reward as u128 {
+                        self.viol("C07", "epoch_secondary_issuance_sum", format!("epoch {}: {epoch_sum_secondary} vs {}", pe.number(), cfg.secondary_epoch_reward));
+                    }
+                    if halvings > 0 {
+                        self.res.probes.inc("epoch_after_halving");
+                    }
+                    epoch_sum_primary = 0;
+                    epoch_sum_secondary = 0;
+                    self.res.nontrivial = true;
+                }
+            }
+            epoch_sum_primary += e.block_reward(n).unwrap().as_u64() as u128;
+            epoch_sum_secondary += e.secondary_block_issuance(n, Capacity::shannons(cfg.secondary_epoch_reward)).unwrap().as_u64() as u128;
+            prev = Some((e, header));
+        }
+        // compact <-> difficulty conversions on every target met: consistent and monotone
+        let mut last: Option<(BigUint, BigUint)> = None;
+        for c in compacts {
+            let (t, overflow) = bigmath::compact_to_target(c);
+            let d = bigmath::compact_to_difficulty(c);
+            let node_d = bigmath::from_u256(&ckb_types::utilities::compact_to_difficulty(c));
+            let (node_t, node_o) = ckb_types::utilities::compact_to_target(c);
+            if node_d != d || bigmath::from_u256(&node_t) != t || node_o != overflow {
+                self.viol("C07", "compact_conversion_differs", format!("compact {c:#x}"));
+            }
+            if ckb_types::utilities::target_to_compact(node_t.clone()) != c && !overflow {
+                // non-canonical compacts may re-encode differently; canonical ones produced by the node must round-trip
+                if ckb_types::utilities::difficulty_to_compact(ckb_types::utilities::compact_to_difficulty(c)) == c {
+                    self.viol("C07", "compact_round_trip", format!("compact {c:#x}"));
+                }
+            }
+            if let Some((lt, ld)) = &last {
+                // larger target <=> smaller-or-equal difficulty
+                if (t > *lt && d > *ld) || (t < *lt && d < *ld) {
+                    self.viol("C07", "difficulty_not_monotone_in_target", format!("compact {c:#x}"));
+                }
+            }
+            last = Some((t, d));
+        }
+    }
+
     fn quiescent_checks(&mut self) {
-        if self.sc.prop == "C02" || self.sc.prop == "C08" || self.sc.prop == "C19" {
+        if self.sc.prop == "C02" || self.sc.prop == "C08" || self.sc.prop == "C19" || self.sc.prop == "C07" {
             self.check_tip_consistency("quiescent");
         }
     }
@@ -669,6 +770,9 @@ impl Exec {
 
         // ---- C02 / C06 / C19: full comparison of the stored state and of every captured snapshot
         self.check_tip_consistency("final");
+        if self.sc.prop == "C07" {
+            self.check_epochs();
+        }
         let snaps = std::mem::take(&mut self.snaps);
         for s in snaps {
             if let Err((class, d)) = compare_state(&self.w, &*s, Some(&*s)) {
